@@ -395,7 +395,7 @@ class Fn:
             for i_, k_ in zip(idxs, combo):
                 if k_ is None:
                     need *= len(locs[i_][1])
-            if len(cands) == 1 and full == need and any(k_ is not None for k_ in combo):
+            if len(cands) == 1 and full == need and (not combo or any(k_ is not None for k_ in combo)):
                 succ = [s_ for s_ in succ if s_ in cands]
         return st2, succ
 
